@@ -149,7 +149,7 @@ func (c *Content) WithFileInfoDefaults(umask fs.FileMode, mtime time.Time) *Cont
 				cc.FileInfo.MTime = info.ModTime()
 			}
 			if cc.FileInfo.Mode == 0 {
-				cc.FileInfo.Mode = info.Mode() &^ umask
+				cc.FileInfo.Mode = unixMode(info.Mode()) &^ umask
 			}
 			cc.FileInfo.Size = info.Size()
 		}
@@ -159,6 +159,25 @@ func (c *Content) WithFileInfoDefaults(umask fs.FileMode, mtime time.Time) *Cont
 		cc.FileInfo.MTime = mtime
 	}
 	return cc
+}
+
+// unixMode converts the mode of a file on disk to the numeric form in which
+// modes are configured and written into packages: the permission bits plus
+// setuid (04000), setgid (02000) and sticky (01000). Go keeps those three in
+// high bits, next to type bits such as fs.ModeDir, which are meaningless (or
+// harmful) when cast into an archive header.
+func unixMode(mode fs.FileMode) fs.FileMode {
+	result := mode.Perm()
+	if mode&fs.ModeSetuid != 0 {
+		result |= 0o4000
+	}
+	if mode&fs.ModeSetgid != 0 {
+		result |= 0o2000
+	}
+	if mode&fs.ModeSticky != 0 {
+		result |= 0o1000
+	}
+	return result
 }
 
 // Name to part of the os.FileInfo interface
@@ -510,7 +529,7 @@ func addTree(
 
 			c.Type = TypeDir
 			c.Destination = NormalizeAbsoluteDirPath(destination)
-			c.FileInfo.Mode = info.Mode() &^ umask
+			c.FileInfo.Mode = unixMode(info.Mode()) &^ umask
 			c.FileInfo.MTime = info.ModTime()
 			if ownedByFilesystem(c.Destination) {
 				c.Type = TypeImplicitDir
